@@ -1247,6 +1247,29 @@ def shm_constructions(F):
     return out, ctors
 
 
+def _clone_store_fresh(R, f, tr, sop, key, b, cfg):
+    # fresh store from a duplicated descriptor
+    sroots = tr.roots_of_operand(sop)
+    # every way the clone's store can come about (also a fallback taken when duplicating fails) is a store of its own around a duplicated descriptor
+    fresh = bool(sroots) and all(r.kind == "call" and r.id.endswith("BackingStore::from_fd") for r in sroots)
+    dupd = fresh
+    for r in sroots:
+        if r.kind == "call" and r.id.endswith("BackingStore::from_fd"):
+            a = f.term(r.block)["args"][0]
+            ar = tr.roots_of_operand(a)
+            dupd = dupd and bool(ar) and all(x.kind == "call" and x.id in ("libc::fcntl", "libc::dup", "libc::dup3") for x in ar)
+    if fresh and dupd:
+        R.ok("Clone maps a fresh store built from a duplicated descriptor", f.loc(b), cfg)
+    else:
+        R.violate("%s:clone-shares-store" % key, "Clone does not build its own BackingStore from a duplicated descriptor", f.path, f.loc(b), config=cfg)
+
+
+def mapper_names(F):
+    """the function(s) of the backing store that map it: found by what they do (they call mmap), whatever they are called"""
+    out = {strip_generics(g.path) for g in F.fns.values() if "BackingStore" in g.path and g.kind != "Closure" and any(strip_generics(callee_name(t)) == "libc::mmap" for _, t in g.calls())}
+    return out or {"platform::unix::BackingStore::map_file"}
+
+
 def rule_shm_couple(ctx, cfg, F):
     R = ctx.rule("SHM-COUPLE", "every construction of the unix OsIpcSharedMemory gets a pointer from map_file on the same BackingStore it moves into the struct, and a length that is the length passed "
                  "to / returned by that map_file; Clone builds a fresh store (duplicated descriptor) and a fresh mapping of self.length, never reuses self.ptr")
@@ -1266,7 +1289,28 @@ def rule_shm_couple(ctx, cfg, F):
         tr = Tracer(f)
         ex = Expr(f)
         proots = tr.roots_of_operand(pop)
-        maps = [r for r in proots if r.kind == "call" and r.id.endswith("::map_file")]
+        mappers = mapper_names(F)
+        maps = [r for r in proots if r.kind == "call" and (r.id.endswith("::map_file") or strip_generics(r.id) in mappers)]
+        mm = [r for r in proots if r.kind == "call" and r.id == "libc::mmap"]
+        if not maps and len(mm) == 1 and all((r.kind == "call" and r.id in ("libc::mmap", "std::ptr::null_mut", "std::ptr::null")) or (r.kind == "const" and r.id in (0, "0")) for r in proots):
+            # the mapping step was taken out of the backing store's mapper into a helper that is looked through: the pointer is mmap's result (or null for the
+            # unmapped zero-length region), mapped from the descriptor of the store that goes into the region, for the length that goes into the region
+            mt = f.term(mm[0].block)
+            st_roots = {(r.kind, r.id, r.block) for r in tr.roots_of_operand(sop)}
+            fd_roots = {(r.kind, r.id, r.block) for r in tr.roots_of_operand(mt["args"][4])}
+            same_store = _root_local(f, tr, mt["args"][4]) == _root_local(f, tr, sop) or (len(st_roots) == 1 and fd_roots == st_roots)
+            lr = {(r.kind, r.id, r.block, r.path) for r in tr.roots_of_operand(lop)}
+            mr = {(r.kind, r.id, r.block, r.path) for r in tr.roots_of_operand(mt["args"][1])}
+            len_ok = bool(lr) and all(x in mr or (x[0] == "const" and x[1] in (0, "0")) for x in lr) and any(x in mr for x in lr)
+            if not same_store:
+                R.violate("%s:store-mismatch" % key, "the pointer was mapped from a different descriptor than that of the BackingStore moved into the region", f.path, f.loc(b), config=cfg)
+            elif not len_ok:
+                R.violate("%s:length-mismatch" % key, "the region's length (%s) is not the length mapped (%s)" % (expr_str(ex.of_operand(lop)), expr_str(ex.of_operand(mt["args"][1]))), f.path, f.loc(b), config=cfg)
+            else:
+                R.ok("%s: (ptr, len, store): mmap of the stored BackingStore's descriptor for the region's length" % key, f.loc(b), cfg)
+            if f.impl_trait == "std::clone::Clone":
+                _clone_store_fresh(R, f, tr, sop, key, b, cfg)
+            continue
         if len(proots) != 1 or not maps or maps[0].field_idx()[:1] != (0,):
             R.violate("%s:pointer-origin" % key, "the mapping pointer does not come from map_file().0 (%s)" % sorted(map(repr, proots)), f.path, f.loc(b), config=cfg)
             continue
@@ -1285,6 +1329,8 @@ def rule_shm_couple(ctx, cfg, F):
         ok = False
         if ml[0] == "agg" and "::" in ml[1] and len(ml[2]) == 1 and ml[2][0] == le:
             ok = True
+        if ml == le:
+            ok = True         # a mapper that takes the length itself, not an Option of it
         lroots = tr.roots_of_operand(lop)
         if any(r.kind == "call" and r.block == maps[0].block and r.field_idx()[:1] == (1,) for r in lroots) and len(lroots) == 1:
             ok = True
@@ -1293,20 +1339,7 @@ def rule_shm_couple(ctx, cfg, F):
         else:
             R.violate("%s:length-mismatch" % key, "the region's length (%s) is not the length mapped (%s)" % (expr_str(ex.of_operand(lop)), expr_str(ex.of_operand(mt["args"][1]))), f.path, f.loc(b), config=cfg)
         if f.impl_trait == "std::clone::Clone":
-            # fresh store from a duplicated descriptor
-            sroots = tr.roots_of_operand(sop)
-            # every way the clone's store can come about (also a fallback taken when duplicating fails) is a store of its own around a duplicated descriptor
-            fresh = bool(sroots) and all(r.kind == "call" and r.id.endswith("BackingStore::from_fd") for r in sroots)
-            dupd = fresh
-            for r in sroots:
-                if r.kind == "call" and r.id.endswith("BackingStore::from_fd"):
-                    a = f.term(r.block)["args"][0]
-                    ar = tr.roots_of_operand(a)
-                    dupd = dupd and bool(ar) and all(x.kind == "call" and x.id in ("libc::fcntl", "libc::dup", "libc::dup3") for x in ar)
-            if fresh and dupd:
-                R.ok("Clone maps a fresh store built from a duplicated descriptor", f.loc(b), cfg)
-            else:
-                R.violate("%s:clone-shares-store" % key, "Clone does not build its own BackingStore from a duplicated descriptor", f.path, f.loc(b), config=cfg)
+            _clone_store_fresh(R, f, tr, sop, key, b, cfg)
     R.count("constructions[%s]" % cfg, n)
 
 
@@ -1417,10 +1450,11 @@ def fill_cover(f, L, norm=None):
 def _norm_mapped_len(F, e):
     """`map_file(store, Some(x)).1` is x: map_file returns the length it was asked to map (checked on map_file's body: its second result component
     derives only from the Some payload of its length parameter, or from fstat when that is None)"""
-    if e[0] == "field" and e[2] == 1 and e[1][0] == "call" and e[1][1].endswith("::map_file") and len(e[1][2]) == 2:
+    if e[0] == "field" and e[2] == 1 and e[1][0] == "call" and (e[1][1].endswith("::map_file") or strip_generics(e[1][1]) in mapper_names(F)) and len(e[1][2]) == 2:
         a = e[1][2][1]
-        if a[0] == "agg" and "::" in a[1] and a[1] not in ("tuple", "array") and len(a[2]) == 1:      # Some(x), or the one-payload variant of a private enum (MapLength::Exactly(x))
-            mf = next((g for g in F.fns.values() if strip_generics(g.path).endswith("BackingStore::map_file")), None)
+        plain = not (a[0] == "agg" and "::" in a[1] and a[1] not in ("tuple", "array") and len(a[2]) == 1)
+        if True:      # Some(x), the one-payload variant of a private enum (MapLength::Exactly(x)), or the length itself
+            mf = next((g for g in F.fns.values() if strip_generics(g.path) == strip_generics(e[1][1])), None)
             if mf is not None:
                 tr = Tracer(mf)
                 roots = tr.roots(0, (("f", 1, ""),))
@@ -1428,8 +1462,55 @@ def _norm_mapped_len(F, e):
                                  for r in roots) and (any(r.kind == "param" and r.id == 2 for r in roots) or any(
                                      r.kind == "call" and "unwrap_or" in r.id and r.block is not None and any(x.kind == "param" and x.id == 2 for x in tr.roots_of_operand(mf.term(r.block)["args"][0]))
                                      for r in roots)):
-                    return a[2][0]
+                    return a if plain else a[2][0]
     return e
+
+
+def _norm_ctor_field(F, e):
+    """`Region::from_raw_parts(p, n, s).length` is n: a field read off the result of a constructor whose body only stores its parameters"""
+    if e[0] == "field" and e[1][0] == "call" and isinstance(e[2], int):
+        g = F.fns.get(e[1][1]) or next((h for h in F.fns.values() if strip_generics(h.path) == e[1][1]), None)
+        if g is not None and len(g.live_blocks()) <= 6 and not any(True for _ in g.calls()):
+            roots = Tracer(g).roots(0, (("f", e[2], ""),))
+            if len(roots) == 1:
+                r = next(iter(roots))
+                if r.kind == "param" and not r.path and r.id - 1 < len(e[1][2]):
+                    return e[1][2][r.id - 1]
+    return e
+
+
+def _norm_zero_case(f, ex, e):
+    """`mapping.length` where `mapping` is `Mapping { address, length }` on the mapped path and `Mapping::unmapped()` (length 0) on the path taken when
+    `length == 0`: the field is `length` either way.  e = field(var v, i): every definition of v is a literal; the i-th components are X, or the constant 0 in a
+    block that lies behind an edge saying X == 0."""
+    if not (e[0] == "field" and e[1][0] == "var" and isinstance(e[2], int)):
+        return e
+    v, i = e[1][1], e[2]
+    ds = [d for d in f.defs().get(v, []) if not f.is_cleanup(d[0])]
+    if len(ds) < 2 or not all(d[1] is not None and d[2]["rv"]["r"] == "agg" and i < len(d[2]["rv"]["a"]) for d in ds):
+        return e
+    comps = [(d[0], expr_strip_blocks(ex.of_operand(d[2]["rv"]["a"][i]))) for d in ds]
+    others = {repr(c): c for _, c in comps if c != ("const", 0)}
+    if len(others) != 1:
+        return e
+    X = next(iter(others.values()))
+    for b, c in comps:
+        if c != ("const", 0):
+            continue
+        ok = False
+        for s_ in f.live_blocks():
+            if f.term(s_)["t"] != "switch" or not f.dominates(s_, b):
+                continue
+            for tgt in f.succ(s_):
+                if not (tgt == b or f.dominates(tgt, b)):
+                    continue
+                for lab in edge_label(f, s_, tgt):
+                    if lab["kind"] == "cmp" and ((lab["op"] == "Eq" and lab["truth"]) or (lab["op"] == "Ne" and not lab["truth"])) and op_const(lab["b"]) == 0 and \
+                            expr_strip_blocks(ex.of_operand(lab["a"])) == X:
+                        ok = True
+        if not ok:
+            return e
+    return X
 
 
 def rule_shm_len(ctx, cfg, F):
@@ -1448,17 +1529,19 @@ def rule_shm_len(ctx, cfg, F):
             nm = strip_generics(callee_name(t))
             if nm.endswith("BackingStore::new"):
                 vals["store"] = expr_strip_blocks(ex.of_operand(t["args"][0]))
-            elif nm.endswith("::map_file"):
+            elif nm.endswith("::map_file") or nm in mapper_names(F):
                 e = expr_strip_blocks(ex.of_operand(t["args"][1]))
                 vals["map"] = e[2][0] if e[0] == "agg" and "::" in e[1] and len(e[2]) == 1 else e
+            elif nm == "libc::mmap" and "map" not in vals:
+                vals["map"] = expr_strip_blocks(ex.of_operand(t["args"][1]))      # the mapper's body, looked through
             elif nm in ("std::slice::from_raw_parts_mut", "std::ptr::copy_nonoverlapping", "std::ptr::write_bytes"):
                 pass        # the fill is decided by fill_cover below
         # the region's length: the length part of the construction in this function (constructor call or struct literal)
         for (cf, cb, pop, lop, sop) in cons:
             if cf is f and lop is not None:
-                vals["len"] = _norm_mapped_len(F, expr_strip_blocks(ex.of_operand(lop)))
+                vals["len"] = _norm_zero_case(f, ex, _norm_mapped_len(F, expr_strip_blocks(ex.of_operand(lop))))
         if "len" in vals:
-            okc, why = fill_cover(f, vals["len"], norm=lambda e: _norm_mapped_len(F, e))
+            okc, why = fill_cover(f, vals["len"], norm=lambda e: _norm_zero_case(f, ex, _norm_mapped_len(F, _norm_ctor_field(F, e))))
             if okc:
                 vals["fill"] = vals["len"]
                 R.ok("%s: the fill covers the mapping: %s" % (name, why), f.loc(0), cfg)
